@@ -159,12 +159,12 @@ theorem step_countOk {s : GSt} (h : CountOkF (pendFrgs s)) (op : Op) : CountOkF 
           · exact h
           · split
             · exact h
-            · split
-              · show CountOkF (_ ++ frgs (sendQ1 s.k buf)); rw [sendQ1_frgs]; exact h
+            · rename_i hc
+              split
+              · exact h
               · split
                 · show CountOkF (_ ++ frgs (sendQ1 s.k buf)); rw [sendQ1_frgs]; exact h
-                · rename_i hc
-                  split
+                · split
                   · show CountOkF (_ ++ frgs (sendQ1 s.k buf)); rw [sendQ1_frgs]; exact h
                   · show CountOkF (_ ++ frgs (sendQ1 s.k buf ++ sendNew s.k buf))
                     have : frgs (sendQ1 s.k buf ++ sendNew s.k buf) = frgs s.k.snd_queue ++ frgs (sendNew s.k buf) := by
